@@ -1,6 +1,9 @@
 package checks
 
 import (
+	"fmt"
+
+	"github.com/goplus/gogen/verif/internal/drive"
 	"github.com/goplus/gogen/verif/internal/h"
 )
 
@@ -8,8 +11,49 @@ var allCats = []string{"operator", "shift", "conv", "assign", "compare", "builti
 
 var c01def = &atomCheckDef{id: "C01", cats: allCats, cfgs: []string{"default", "xgo"}, per: 1, judge: judgeC01, noComp: true}
 
+// C01 program layer: valid generated programs, programs with one injected fault, corpus programs, multi-file splits.
+func c01ExtraN(tier string) int {
+	if tier == "thorough" {
+		return 30000
+	}
+	return 1200
+}
+
+func c01Extra(tier string, seed uint64, i int) []h.Result {
+	var p progSpec
+	opt := drive.Opt{NoCompare: true}
+	nc := len(Corpus())
+	switch {
+	case i < nc:
+		c := Corpus()[i]
+		p = progSpec{kind: "corpus", src: []string{c.Src}, key: "corpus " + c.Name}
+	case i%4 == 0:
+		p = mkProg("C01", seed, i, false, false)
+	case i%4 == 1:
+		p = mkProg("C01", seed, i, false, false)
+		p.src, p.names = splitFiles(p.src[0], h.NewRand(seed, 7, uint64(i)))
+		p.kind = "multi"
+		p.key = fmt.Sprintf("generated multi-file program seed=%d case=%d (%d files)", seed, i, len(p.src))
+	default:
+		p = mkProg("C01", seed, i, true, i%8 == 3)
+	}
+	if i%16 == 5 {
+		opt.XGo = true
+	}
+	o := runProg(p, opt)
+	r := judgeC01(p.key, o)
+	if p.kind == "fault" && p.fault != "" && o.Status == "accepted" && len(o.OutErrs) == 0 && !o.SrcValid {
+		// the fault was silently repaired or dropped: the output type-checks although the source does not
+		r.Count("fault_accepted_output_ok", 1)
+	}
+	progResultExtras(&r, p, o)
+	return []h.Result{r}
+}
+
 func init() {
 	d := c01def
+	d.extraN = c01ExtraN
+	d.extraRun = c01Extra
 	h.Register(&h.Check{
 		ID:    "C01",
 		Level: "exploration",
